@@ -14,6 +14,8 @@ pub struct Trk {
     pub refid: u32,
     /// source address of the report as an IPv4 word (None = unspecified, what chronyd sends for refclocks)
     pub ip4: Option<u32>,
+    /// stratum chronyd reports for itself (None = 1); the daemon never reads it
+    pub stratum: Option<u16>,
 }
 
 pub fn reply_bytes(t: &Trk, reply_code: u16) -> Vec<u8> {
@@ -32,7 +34,7 @@ pub fn reply_bytes(t: &Trk, reply_code: u16) -> Vec<u8> {
         Some(a) => { b.extend_from_slice(&a.to_be_bytes()); b.extend_from_slice(&[0; 12]); b.extend_from_slice(&1u16.to_be_bytes()); } // IPADDR_INET4
     }
     b.extend_from_slice(&0u16.to_be_bytes());
-    b.extend_from_slice(&1u16.to_be_bytes()); // stratum
+    b.extend_from_slice(&t.stratum.unwrap_or(1).to_be_bytes()); // stratum
     b.extend_from_slice(&t.leap.to_be_bytes());
     let sec = (t.ref_ns / 1_000_000_000) as u64;
     let nsec = (t.ref_ns % 1_000_000_000) as u32;
@@ -76,7 +78,7 @@ pub fn tracking(t: &Trk) -> Tracking {
 
 /// self-test of the hard-coded layout against chrony-candm's own serialiser
 pub fn self_test() {
-    let t = Trk { leap: 0xABCD, ref_ns: 1_700_000_123_456_789_012, off: 0xee562947, disp: 0x0893362c, delay: 0x026bb816, interval: 0x0b000000, refid: 0x50484330, ip4: None };
+    let t = Trk { leap: 0xABCD, ref_ns: 1_700_000_123_456_789_012, off: 0xee562947, disp: 0x0893362c, delay: 0x026bb816, interval: 0x0b000000, refid: 0x50484330, ip4: None, stratum: None };
     let tr = tracking(&t);
     assert_eq!(tr.leap_status, 0xABCD);
     assert_eq!(tr.ref_id, 0x50484330);
